@@ -13,7 +13,7 @@ D0     == I0.dev
 IsMerge == "parts" \in DOMAIN I0.tgt
 T      == IF IsMerge THEN I0.tgt.parts.merged ELSE I0.tgt
 
-RuleOf(j) == [seq |-> j.seq, action |-> j.action, dir |-> j.dir, src |-> j.src, dst |-> j.dst, svc |-> j.svc]
+RuleOf(j) == [seq |-> j.seq, action |-> j.action, dir |-> j.dir, src |-> j.src, dst |-> j.dst, svc |-> j.svc, opt |-> j.opt]
 RulesOf(jp) == [i \in DOMAIN jp |-> RuleOf(jp[i])]
 PolOf(j) == [p \in DOMAIN j.policies |-> RulesOf(j.policies[p])]
 GrpOf(j) == [n \in DOMAIN j.groups |-> ToSet(j.groups[n])]
@@ -62,7 +62,7 @@ ExpT(t, g) == IF \E n \in DOMAIN g : t = GrpRef(n) THEN [k |-> "set", v |-> g[CH
               ELSE [k |-> "lit", v |-> {t}]
 ExpS(t, s) == IF \E n \in DOMAIN s : t = SvcRef(n) THEN s[CHOOSE n \in DOMAIN s : t = SvcRef(n)] ELSE t
 ExpR(r, g, s) == [seq |-> r.seq, action |-> r.action, dir |-> r.dir, src |-> ExpT(r.src, g), dst |-> ExpT(r.dst, g),
-                  svc |-> ExpS(r.svc, s)]
+                  svc |-> ExpS(r.svc, s), opt |-> r.opt]
 \* multiset of expanded rules of a policy, as a function expanded rule -> count
 Bag(rs, g, s) == LET E == {ExpR(rs[i], g, s) : i \in DOMAIN rs}
                  IN [e \in E |-> Cardinality({i \in DOMAIN rs : ExpR(rs[i], g, s) = e})]
